@@ -118,7 +118,9 @@ class Scenario:
         # gentle 3-axis motion: small rates, specific force ~ reaction to gravity
         w = 0.05 * np.column_stack([np.sin(0.7 * t[1:] + 0.3), np.cos(0.5 * t[1:]), 0.6 * np.sin(0.3 * t[1:] + 1)])
         f = np.column_stack([0.3 * np.sin(0.4 * t[1:]), 0.2 * np.cos(0.6 * t[1:]), -9.81 + 0.1 * np.sin(0.9 * t[1:])])
-        inc = np.column_stack([dts, w * dts[:, None], f * dts[:, None]])
+        # increments are NOT exact products rate x dt (real ones carry coning/sculling terms and sensor noise): otherwise
+        # rounding identities such as (x / dt) * dt == x hold by construction and hide non-transparent corrections
+        inc = np.column_stack([dts, w * dts[:, None] + rng.randn(n, 3) * 1e-9, f * dts[:, None] + rng.randn(n, 3) * 1e-8])
         self.increments = pd.DataFrame(inc, index=pd.Index(t[1:], name='time'), columns=gen.INC_COLS)
         lat = float(rng.choice([50.0, -33.0, 2.0]))
         self.pva0 = pd.Series([lat, float(rng.choice([10.0, -120.0, 179.99])), 100.0, 3.0, -2.0,
